@@ -41,7 +41,7 @@ def _serial_pairs(bits, rng, n):
 class C17(Check):
     prop = "C17"
     props_file = "Props/C17.v"
-    models = ["SctpRecv", "SctpSend", "RtpRecv", "RtpSend", "Chan"]
+    models = ["SctpRecv", "SctpSend", "RtpRecv", "RtpSend", "Chan", "SctpTx"]
     quick_cases = 700
     thorough_cases = 15000
     case_timeout = 60.0
@@ -87,7 +87,12 @@ class C17(Check):
     # ---------------------------------------------------------------- cases
     def gen_case(self, rng, i):
         r = rng.random()
-        if r < 0.04:
+        if r < 0.06:
+            # theorem 2b is about Model/SctpTx.v: its tie to the real sender (C02's sender cases), with TSN origins at the
+            # 32-bit wrap and stream sequence numbers starting just below the 16-bit wrap (FORWARD-TSN stream lists)
+            from harness.props import c02 as C02mod
+            return {"k": 7, "c02": C02mod.gen_tx_case(rng, ssn_origins=[65535, 65535, 65534, 65533])}
+        if r < 0.075:
             # theorem 7 is about Model/Chan.v: its tie to a real RTCSctpTransport (C13's data-channel layer cases) with
             # the RE-CONFIG request numbering starting within 3 of the 32-bit wrap
             from harness.props import c13 as C13mod
@@ -104,22 +109,22 @@ class C17(Check):
                 tail += [[10, (c["req"] + d) & 0xFFFFFFFF] for d in range(0, 6)]
             c["ins"] = c["ins"][:25] + tail
             return {"k": 6, "c13": c}
-        if r < 0.07:
+        if r < 0.10:
             # theorem 6 is about Model/RtpSend.v: its tie to a real RTCRtpSender (C11's sender cases start their sequence
             # counters within 140 of the wrap most of the time)
             from harness.props.c11 import C11
             return {"k": 5, "c11": C11().gen_sender(rng)}
-        if r < 0.11:
+        if r < 0.14:
             # theorem 5 is about the NackGenerator of Model/RtpRecv.v: its tie, at sequence numbers around the wrap
             from harness.props.c11 import C11
             return {"k": 4, "seqs": C11().gen_nack(rng)[1]}
-        if r < 0.17:
+        if r < 0.20:
             # the sender's SSN counters at origins around the 16-bit wrap, TSNs around the 32-bit wrap (theorem 2d is
             # about Model/SctpSend.v: this is its tie to RTCSctpTransport._send)
             c = C01mod.C01.gen_send_case(rng, origins=[65535, 65534, 65533, 65530, 32767, 32768, 0])
             c["tsn0"] = (rng.choice(WRAPS32) - rng.randrange(0, 6)) & 0xFFFFFFFF
             return c
-        if r < 0.38:
+        if r < 0.40:
             base = rng.choice(WRAPS32) - rng.randrange(0, 6) & 0xFFFFFFFF
             chunks, sent = C01mod.make_sender_chunks(rng, base)
             arr = [rng.randrange(len(chunks)) for _ in range(rng.randrange(1, 3 * len(chunks) + 2))]
@@ -155,6 +160,11 @@ class C17(Check):
             return {"k": 3, "kind": "recv", "base": base, "events": events, "delta": delta, "sdelta": sdelta}
         if kind == "jitter":
             cap = rng.choice([4, 8, 16, 32, 128])
+            real = None
+            if rng.random() < 0.4:
+                # exactly the buffers the receivers use (audio: small with prefetch, video: large)
+                real = rng.choice(receiver_buffers())
+                cap = real[0]
             seq = 1000
             pk = []
             ts = 5000
@@ -176,7 +186,8 @@ class C17(Check):
                     i1 = rng.randrange(len(arr) - 1)
                     j1 = min(len(arr) - 1, i1 + rng.randrange(1, 6))
                     arr[i1], arr[j1] = arr[j1], arr[i1]
-            return {"k": 3, "kind": "jitter", "cap": cap, "prefetch": rng.randrange(0, 5), "video": rng.randrange(2),
+            return {"k": 3, "kind": "jitter", "cap": cap, "prefetch": real[1] if real else rng.randrange(0, 5),
+                    "video": real[2] if real else rng.randrange(2),
                     "pkts": arr, "delta": (rng.choice(WRAPS16) - 1000 - rng.randrange(0, 10)) % 65536,
                     "tdelta": (rng.choice(WRAPS32) - 5000 - rng.randrange(0, 3) * 3000) & 0xFFFFFFFF}
         if kind == "nack":
@@ -197,7 +208,7 @@ class C17(Check):
                 "tdelta": (rng.choice(WRAPS32) - 100000 - rng.randrange(0, 5) * 160) & 0xFFFFFFFF}
 
     def model_name(self, case):
-        return {0: "SctpRecv", 2: "SctpSend", 4: "RtpRecv", 5: "RtpSend", 6: "Chan"}.get(case["k"])
+        return {0: "SctpRecv", 2: "SctpSend", 4: "RtpRecv", 5: "RtpSend", 6: "Chan", 7: "SctpTx"}.get(case["k"])
 
     def model_canon(self, case, out):
         if case["k"] == 5:
@@ -206,6 +217,9 @@ class C17(Check):
         return out
 
     def encode(self, case):
+        if case["k"] == 7:
+            from harness.props.c02 import C02
+            return C02().encode(case["c02"])
         if case["k"] == 6:
             from harness.props.c13 import C13
             return C13().encode(case["c13"])
@@ -219,6 +233,9 @@ class C17(Check):
         return [case["base"], case["events"]]
 
     def describe_case(self, case):
+        if case["k"] == 7:
+            from harness.props.c02 import C02
+            return C02().describe_case(case["c02"])
         if case["k"] == 6:
             from harness.props.c13 import C13
             return C13().describe_case(case["c13"])
@@ -235,6 +252,9 @@ class C17(Check):
 
     # ---------------------------------------------------------------- implementation
     def impl_run(self, case):
+        if case["k"] == 7:
+            from harness.props.c02 import C02
+            return C02().impl_run(case["c02"])
         if case["k"] == 6:
             from harness.props.c13 import C13
             return C13().impl_run(case["c13"])
@@ -280,6 +300,9 @@ class C17(Check):
 
     # ---------------------------------------------------------------- oracle
     def oracle(self, case, out):
+        if case["k"] == 7:
+            from harness.props.c02 import C02
+            return C02().oracle(case["c02"], out)
         if case["k"] == 6:
             from harness.props.c13 import C13
             return C13().oracle(case["c13"], out)
@@ -337,6 +360,8 @@ class C17(Check):
         return None
 
     def nontrivial(self, case, out):
+        if case["k"] == 7:
+            return any(any(e[0] == 1 for e in evs) for evs, st in out)      # a FORWARD-TSN was built
         if case["k"] == 6:
             # a RE-CONFIG request was numbered across the wrap
             reqs = [e[1] for evs, _ in out for e in evs if e and e[0] == 6]
@@ -358,7 +383,9 @@ class C17(Check):
     def distribution(self, cases, outs):
         d = {"recv_corr": 0, "crossing_wrap": 0}
         for c, o in zip(cases, outs):
-            if c["k"] == 6:
+            if c["k"] == 7:
+                d["sctp_sender_corr"] = d.get("sctp_sender_corr", 0) + 1
+            elif c["k"] == 6:
                 d["chan_corr"] = d.get("chan_corr", 0) + 1
             elif c["k"] == 5:
                 d["rtp_sender_corr"] = d.get("rtp_sender_corr", 0) + 1
@@ -378,6 +405,26 @@ class C17(Check):
 
     def shrink_candidates(self, case):
         return iter(())
+
+
+_RECEIVER_BUFFERS = None
+
+
+def receiver_buffers():
+    """(capacity, prefetch, is_video) of the jitter buffers the real RTCRtpReceiver creates for audio and for video"""
+    global _RECEIVER_BUFFERS
+    if _RECEIVER_BUFFERS is None:
+        from aiortc.rtcrtpreceiver import RTCRtpReceiver
+        from harness.props.c11 import _RecvTransport
+
+        async def noop(data):
+            return None
+        out = []
+        for kind in ("audio", "video"):
+            jb = getattr(RTCRtpReceiver(kind, _RecvTransport(noop)), "_RTCRtpReceiver__jitter_buffer")
+            out.append([jb._capacity, jb._prefetch, 1 if jb._is_video else 0])
+        _RECEIVER_BUFFERS = out
+    return _RECEIVER_BUFFERS
 
 
 def _jitter(case, d, td):
